@@ -4,6 +4,10 @@ import (
 	"context"
 	"fmt"
 
+	v3routepb "github.com/envoyproxy/go-control-plane/envoy/config/route/v3"
+	"google.golang.org/protobuf/types/known/anypb"
+	"google.golang.org/protobuf/types/known/wrapperspb"
+
 	"github.com/cloudwego/kitex/pkg/rpcinfo"
 
 	"github.com/kitex-contrib/xds/core/xdsresource"
@@ -18,6 +22,11 @@ func init() {
 			v = append(v, uint32(x.(float64)))
 		}
 		n := int(in["n"].(float64))
+		if via, _ := in["via"].(string); via == "decoded" {
+			counts, errs, panics, msg := pickViaDecoded(v, n)
+			c.emit(obj{"ws": in["ws"], "n": n, "via": "decoded", "obs": obj{"counts": counts, "errs": errs, "panics": panics, "panicMsg": msg}})
+			return
+		}
 		counts, errs, panics, msg := pickVia(v, n)
 		c.emit(obj{"ws": in["ws"], "n": n, "obs": obj{"counts": counts, "errs": errs, "panics": panics, "panicMsg": msg}})
 	}
@@ -66,6 +75,69 @@ func pickVia(ws []uint32, n int) (counts []int, errs, panics int, panicMsg strin
 			errs++
 		default:
 			if j, ok := idx[res.ClusterPicked]; ok {
+				counts[j]++
+			} else {
+				errs++
+			}
+		}
+	}
+	return
+}
+
+// pickViaDecoded does the same with a route table that went through the decoder: the control plane's RouteConfiguration
+// lists, in ONE virtual host, two weighted routes that do not match the call (an exact path), then the weighted route
+// under test, then another weighted route; the decoded table is served as a named route table. Whatever the decoder
+// computes per route must be that route's own.
+func pickViaDecoded(ws []uint32, n int) (counts []int, errs, panics int, panicMsg string) {
+	stub := newStub()
+	useBackend(stub)
+	idx := map[string]int{}
+	weighted := func(prefix string, weights []uint32, names func(i int) string) *v3routepb.Route {
+		var cls []*v3routepb.WeightedCluster_ClusterWeight
+		for i, w := range weights {
+			cls = append(cls, &v3routepb.WeightedCluster_ClusterWeight{Name: names(i), Weight: wrapperspb.UInt32(w)})
+		}
+		m := &v3routepb.RouteMatch{PathSpecifier: &v3routepb.RouteMatch_Prefix{Prefix: "/"}}
+		if prefix != "/" {
+			m = &v3routepb.RouteMatch{PathSpecifier: &v3routepb.RouteMatch_Path{Path: prefix}}
+		}
+		return &v3routepb.Route{Match: m, Action: &v3routepb.Route_Route{Route: &v3routepb.RouteAction{
+			ClusterSpecifier: &v3routepb.RouteAction_WeightedClusters{WeightedClusters: &v3routepb.WeightedCluster{Clusters: cls}}}}}
+	}
+	for i := range ws {
+		idx[fmt.Sprintf("c%d", i)] = i
+	}
+	rcfg := &v3routepb.RouteConfiguration{Name: "rc", VirtualHosts: []*v3routepb.VirtualHost{{Name: "vh", Routes: []*v3routepb.Route{
+		weighted("/never-1", []uint32{3, 4}, func(i int) string { return fmt.Sprintf("other-a%d", i) }),
+		weighted("/never-2", []uint32{1, 1}, func(i int) string { return fmt.Sprintf("other-b%d", i) }),
+		weighted("/", ws, func(i int) string { return fmt.Sprintf("c%d", i) }),
+		weighted("/", []uint32{5}, func(i int) string { return "shadowed" }),
+	}}}}
+	res, err := xdsresource.UnmarshalRDS([]*anypb.Any{mustAny(rcfg)})
+	if err != nil || res["rc"] == nil {
+		return make([]int, len(ws)), n, 0, ""
+	}
+	stub.res[stubKey{xdsresource.RouteConfigType, "rc"}] = res["rc"]
+	stub.res[stubKey{xdsresource.ListenerType, "svc"}] = &xdsresource.ListenerResource{
+		NetworkFilters: []*xdsresource.NetworkFilter{{FilterType: xdsresource.NetworkFilterTypeHTTP, RouteConfigName: "rc"}},
+	}
+	router := xdssuite.NewXDSRouter()
+	to := rpcinfo.NewEndpointInfo("svc", "method", nil, nil)
+	ri := rpcinfo.NewRPCInfo(nil, to, rpcinfo.NewInvocation("svc", "method", "pkg"), rpcinfo.NewRPCConfig(), nil)
+	counts = make([]int, len(ws))
+	ctx := context.Background()
+	for i := 0; i < n; i++ {
+		var rr *xdssuite.RouteResult
+		var rerr error
+		p, msg := recoverTo(func() { rr, rerr = router.Route(ctx, ri) })
+		switch {
+		case p:
+			panics++
+			panicMsg = msg
+		case rerr != nil:
+			errs++
+		default:
+			if j, ok := idx[rr.ClusterPicked]; ok {
 				counts[j]++
 			} else {
 				errs++
@@ -171,5 +243,18 @@ func runC09(c *ctx) {
 		}
 		c.count(fmt.Sprintf("len=%d", len(v)), 1)
 		c.emit(obj{"ws": ws, "n": n, "obs": obj{"counts": counts, "errs": errs, "panics": panics, "panicMsg": msg}})
+	}
+	// the same through the decoder, for the vectors where the control plane can express them (at least one cluster)
+	for k, v := range vectors {
+		if len(v) == 0 || (k%3 != 0 && len(v) != 2) {
+			continue
+		}
+		counts, errs, panics, msg := pickViaDecoded(v, n)
+		ws := make([]uint64, len(v))
+		for i, w := range v {
+			ws[i] = uint64(w)
+		}
+		c.count("via-decoder", 1)
+		c.emit(obj{"ws": ws, "n": n, "via": "decoded", "obs": obj{"counts": counts, "errs": errs, "panics": panics, "panicMsg": msg}})
 	}
 }
